@@ -236,10 +236,22 @@ class Gen:
             kids = [W.ids[id(x)] for x in getattr(W.objs[p], sc[1]) if id(x) in W.ids]
             if not kids:
                 return None
+            def removable(c_):
+                if sc[2] == 'Definition' and len(W.objs[c_].references):
+                    return False          # keep instances referenced (structure, not naming, is C01/C02's business)
+                if sc[2] == 'Instance' and any(n.top_instance is W.objs[c_] for n in W.objs if irlib.kind(n) == 'Netlist'):
+                    return False
+                return True
+            if r.random() < 0.3:
+                # the bulk form: some or all of the children in one call
+                ok = [c_ for c_ in kids if removable(c_)]
+                if ok and (len(ok) == len(kids) or r.random() < 0.5):
+                    some = ok if r.random() < 0.5 else r.sample(ok, r.randint(1, len(ok)))
+                    bulk = {'remove_library': 'remove_libraries_from', 'remove_definition': 'remove_definitions_from', 'remove_port': 'remove_ports_from',
+                            'remove_cable': 'remove_cables_from', 'remove_child': 'remove_children_from'}[sc[6]]
+                    return {'kind': 'remove', 'op': 'call', 'args': [{'o': p}, bulk, {'list': [{'o': c_} for c_ in some]}]}
             c = r.choice(kids)
-            if sc[2] == 'Definition' and len(W.objs[c].references):
-                return None          # keep instances referenced (structure, not naming, is C01/C02's business)
-            if sc[2] == 'Instance' and any(n.top_instance is W.objs[c] for n in W.objs if irlib.kind(n) == 'Netlist'):
+            if not removable(c):
                 return None
             return {'kind': 'remove', 'op': 'call', 'args': [{'o': p}, sc[6], {'o': c}]}
         els = self.of('Library', 'Definition', 'Port', 'Cable', 'Instance')
